@@ -333,7 +333,12 @@ class AstMap:
 
     def __getitem__(self, id_n):
         if id_n.startswith('__'):
-            expression = self.exp_table[id_n]
+            # The node of the student's tree, seen through this match: a view
+            # of its own, so that the (shared, cached) tree does not carry the
+            # bindings of whichever match was asked last
+            node = self.exp_table[id_n]
+            expression = object.__new__(type(node))
+            expression.__dict__.update(node.__dict__)
             expression.map = self
             return expression
         else:
